@@ -1802,6 +1802,99 @@ pub fn run_c16_continuation(ctx: &mut Ctx) {
     ctx.workers = saved;
 }
 
+/// C16 with MANY searches between two probes of the same position: a probe, then 127 ... 512
+/// zero-allowance searches of other positions, then the probe again - against a fresh process.
+/// Session state that ages, counts or wraps (an 8-bit generation counter, a table that fills up)
+/// needs a specific number of searches in between; the counts straddle the 8-bit and 9-bit limits.
+#[derive(Debug, Clone)]
+pub struct ManySearches {
+    pub pos: RepSpec,
+    pub count: u16,
+    pub slice: u16,
+    pub timed_fillers: bool,
+}
+fn many_once(c: &ManySearches, st: &mut Stats) -> CaseResult {
+    let Some((ptext, p)) = rep_text(&c.pos) else { return Ok(()) };
+    if p.legal_moves().is_empty() {
+        return Ok(());
+    }
+    let slice = 30 + c.slice % 40;
+    let mut f = Engine::spawn()?;
+    f.handshake()?;
+    let fresh = run_probe(&mut f, &ptext, &p, slice)?;
+    f.send("quit");
+    let mut e = Engine::spawn()?;
+    e.handshake()?;
+    let first = run_probe(&mut e, &ptext, &p, slice)?;
+    let fillers = ["position startpos", "position startpos moves e2e4", "position fen 8/8/8/4k3/8/8/4P3/4K3 w - - 0 1", "position startpos moves d2d4 d7d5 c2c4"];
+    // run_probe itself is two searches (zero allowance + timed); the fillers bring the number of
+    // searches between the two timed probes to `count`
+    let n = (c.count as usize).saturating_sub(1);
+    for i in 0..n {
+        e.send(fillers[i % fillers.len()]);
+        e.send("go");
+        if i % 64 == 63 || i + 1 == n {
+            // fence now and then so that the pipe never fills up
+            e.isready(Duration::from_secs(20)).map_err(|m| format!("during {} zero-allowance searches: {}", n, m))?;
+            e.drain();
+        }
+    }
+    if c.timed_fillers {
+        e.send(fillers[1]);
+        do_go(&mut e, "go wtime 700 btime 700", 16)?;
+    }
+    e.settle(20);
+    let again = run_probe(&mut e, &ptext, &p, slice)?;
+    st.eval();
+    for (name, s) in [("first", &first), ("later", &again)] {
+        if s.zero != fresh.zero {
+            return Err(format!("{} probe: zero-allowance reply {:?} differs from a fresh engine's {:?} [{} ; {} searches in between]", name, s.zero, fresh.zero, ptext, c.count));
+        }
+        if let Some(i) = common_prefix_equal(&s.timed, &fresh.timed) {
+            return Err(format!("{} probe: improvement #{} is {:?} but a fresh engine reports {:?} [{} ; {} searches of other positions between the two probes]", name, i, s.timed[i], fresh.timed[i], ptext, c.count));
+        }
+    }
+    st.label(&format!("searches_between_probes_{}", if c.count >= 500 { "500_plus" } else if c.count >= 250 { "250_to_260" } else { "120_to_130" }));
+    Ok(())
+}
+pub fn many_case(c: &ManySearches, st: &mut Stats) -> CaseResult {
+    match many_once(c, st) {
+        Ok(()) => {
+            st.nontrivial(fp(&format!("{:?}", c)));
+            Ok(())
+        }
+        Err(first) => {
+            if many_once(c, &mut Stats::new()).is_ok() {
+                st.label("mismatch_not_reproduced_on_a_further_attempt");
+                Ok(())
+            } else {
+                Err(first)
+            }
+        }
+    }
+}
+fn many_json(c: &ManySearches) -> Value {
+    json!({"many_searches": true, "start": rep_text(&c.pos).map(|x| x.0), "count": c.count, "slice": c.slice, "timed_fillers": c.timed_fillers})
+}
+pub fn run_c16_many(ctx: &mut Ctx) {
+    let t = ctx.tier;
+    let saved = ctx.workers;
+    ctx.workers = 8;
+    ctx.max_shrink_iters = 6;
+    run_prop(
+        ctx,
+        "many_searches_between_two_probes",
+        || (rep_spec_strategy(), prop_oneof![4 => 253u16..=259, 1 => 126u16..=130, 1 => 509u16..=515], any::<u16>(), any::<bool>()).prop_map(|(pos, count, slice, timed_fillers)| ManySearches { pos, count, slice, timed_fillers }),
+        t.pick(56, 1_200),
+        |c, st| {
+            st.sample(|| many_json(c));
+            many_case(c, st)
+        },
+        many_json,
+    );
+    ctx.workers = saved;
+}
+
 // ---------------------------------------------------------------------------------------------
 // C07, black-box: nothing panics in the two-thread composition
 
@@ -2257,6 +2350,20 @@ pub fn replay_c10_blackbox(case: &Value) -> CaseResult {
 thread_local! { pub static REPLAY_GAME: std::cell::RefCell<Option<(Pos, Vec<Move>)>> = std::cell::RefCell::new(None); }
 
 pub fn replay_c16(case: &Value) -> CaseResult {
+    if case.get("many_searches").is_some() {
+        let start = case.get("start").and_then(|x| x.as_str()).ok_or("no start")?;
+        let p = position_from_text(start)?;
+        REPLAY_START.with(|r| *r.borrow_mut() = Some((start.to_string(), p)));
+        let c = ManySearches {
+            pos: RepSpec { walk: WalkRecipe { start: Start::Corpus(0), choices: vec![] }, cycles: 0, form: 0 },
+            count: case.get("count").and_then(|x| x.as_u64()).unwrap_or(256) as u16,
+            slice: case.get("slice").and_then(|x| x.as_u64()).unwrap_or(0) as u16,
+            timed_fillers: case.get("timed_fillers").and_then(|x| x.as_bool()).unwrap_or(false),
+        };
+        let r = many_case(&c, &mut Stats::new());
+        REPLAY_START.with(|r| *r.borrow_mut() = None);
+        return r;
+    }
     if case.get("continuation").is_some() {
         let start = case.get("start").and_then(|x| x.as_str()).ok_or("no start")?;
         // rebuild the case around the concrete start text
